@@ -294,4 +294,75 @@ theorem C16_disconnect_violation_publishes_will :
     willEvent [99, 49] ∈ (step s (.recv 1 (.disconnect 0 (some 10)))).2 := by
   decide
 
+/-! ## C16: delayed wills, and at most once -/
+
+/-- **C16, delayed wills (item 3).**  For every state `s` and time `t`, the housekeeping op `tick "wills" t`:
+
+    1. is the fold of `publishDue` over `dueWills s t` — the registered delayed wills with `t > expiry`, in the order
+       of the table: every due will is handled exactly once, no other entry is touched;
+    2. one due entry `e` writes the fan-out of its message (`publishToSubscribers`), then the will event iff the client
+       id is still registered; it leaves the Clients map alone and removes the entries of that id from `willDelayed`;
+    3. afterwards `willDelayed` holds exactly the entries whose id is not the id of a due entry — when `willDelayed`
+       is a map (one entry per id, as `assocSet` / `assocDel` keep it): exactly the entries not yet due;
+    4. if nothing is due, nothing is written and nothing changes.
+
+    And the sequential half of "a resumption in time cancels it":
+
+    5. after an admitted CONNECT (`connect`: `attachClient` up to the read loop; admitted = `refuseCode … = none`) no
+       entry of `willDelayed` has the client id of the CONNECT, whatever was registered before — it was removed
+       (`admitC`), and no later tick can publish it (1.).  The schedule-dependent half is the recorded finding
+       F16a: `C16_cancelled_by_resume_counterexample`. -/
+theorem C16_delayed_will_iff (s : Server) (t : Int) :
+    (step s (.tick "wills" t) = (dueWills s t).foldl publishDue (s, [])) ∧
+    (∀ (acc : Server × List Out) (e : Str × Msg),
+      (publishDue acc e).2 = acc.2 ++ (publishToSubscribers acc.1 e.2).2 ++
+        (if (assocGet acc.1.clients e.1).isSome then [willEvent e.1] else []) ∧
+      (publishDue acc e).1.clients = acc.1.clients ∧
+      (publishDue acc e).1.willDelayed = assocDel acc.1.willDelayed e.1) ∧
+    ((∀ e, e ∈ (step s (.tick "wills" t)).1.willDelayed ↔ e ∈ s.willDelayed ∧ ∀ d ∈ dueWills s t, d.1 ≠ e.1) ∧
+     ((s.willDelayed.map (·.1)).Nodup →
+       ∀ e, e ∈ (step s (.tick "wills" t)).1.willDelayed ↔ e ∈ s.willDelayed ∧ ¬ t > e.2.expiry)) ∧
+    ((∀ e ∈ s.willDelayed, ¬ t > e.2.expiry) → step s (.tick "wills" t) = (s, [])) ∧
+    (∀ (conn : Nat) (k : Connect),
+      refuseCode { s with objs := s.objs ++ [parseConnect s conn k], connOf := s.connOf ++ [(conn, s.objs.length)] } k
+        (parseConnect s conn k) = none →
+      ∀ e ∈ (connect s conn k).1.willDelayed, e.1 ≠ k.id) := by
+  rw [step_tick_wills]
+  exact ⟨tickWills_eq s t, publishDue_out, ⟨(tickWills_willDelayed s t).2, tickWills_willDelayed_nodup s t⟩,
+    tickWills_nothing_due s t, connect_admitted_willDelayed s⟩
+
+/-- **C16, at most once (item 3), as state-level facts** (a count over a whole history would have to tell the wills of
+    successive connections of one client id apart; the event carries the id only).  `s` reachable by a sequential
+    history, `c` = live network client object `i`:
+
+    1. after the loss of its connection the object is stopped; if the will was published at once (flag, no delay) the
+       will flag of the object is cleared — so `sendLWT` for this object writes nothing (`C16_no_will`); with a delay
+       the will is in `willDelayed` under the id (`C16_drop_publishes_will_iff`), one entry per id;
+    2. a stopped object's handler is gone: `drop`, `recv`, `recvCut` on its connection do nothing, and a CONNECT of the
+       same client id finds no live handler to take over (no `detach`, hence no `sendLWT`, for it);
+    3. a delayed will that the tick published is removed by that tick: no entry of its id is left, so no later tick
+       publishes it again (`C16_delayed_will_iff` 1. and 3.). -/
+theorem C16_will_at_most_once_seq (caps : Caps) (s : Server) (hr : ReachSeq caps s) :
+    (∀ i, i < s.objs.length → (getObj s i).inline = false → (getObj s i).stopped = false →
+      (getObj (step s (.drop (getObj s i).conn)).1 i).stopped = true ∧
+      ((getObj s i).will.flag = true → (getObj s i).will.delay = 0 →
+        (getObj (step s (.drop (getObj s i).conn)).1 i).will.flag = false ∧
+        sendLWT (step s (.drop (getObj s i).conn)).1 i = ((step s (.drop (getObj s i).conn)).1, []))) ∧
+    (∀ conn i, assocGet s.connOf conn = some i → (getObj s i).stopped = true →
+      step s (.drop conn) = (s, []) ∧ (∀ pk, step s (.recv conn pk) = (s, [])) ∧
+      (∀ pk, step s (.recvCut conn pk) = (s, [])) ∧
+      (∀ j (k : Connect), assocGet s.clients k.id = some i → (admitA s j k).2.2.2 = none)) ∧
+    (∀ t e, e ∈ dueWills s t → ∀ t', ∀ d ∈ dueWills (step s (.tick "wills" t)).1 t', d.1 ≠ e.1) := by
+  obtain ⟨hs, hw, hcm, _⟩ := hr.inv
+  refine ⟨fun i hi hin hst => ?_, fun conn i hc hst => ?_, fun t e he t' d hd => ?_⟩
+  · obtain ⟨a, b⟩ := step_drop_live_obj s i hi hst hin (hcm i hi hin)
+    exact ⟨a, fun hf hd => ⟨b hf hd, sendLWT_noflag _ i (b hf hd)⟩⟩
+  · have hop : (getObj s i).isOpen = false := by rw [hs.os i, hst]; rfl
+    obtain ⟨a, b, c⟩ := step_stopped_noop s conn i hc hst hop
+    exact ⟨a, b, c, fun j k hk => admitA_stopped_no_takeover s j k i hk hst⟩
+  · rw [step_tick_wills] at hd
+    unfold dueWills at hd
+    have hm := (List.mem_filter.mp hd).1
+    exact fun h => ((tickWills_willDelayed s t).2 d).mp hm |>.2 e he h.symm
+
 end Mochi.Broker
